@@ -12,8 +12,10 @@ package base
 //@   pure
 //@ iface ReadStat.GetQPS(event) r
 //@   pure
+//@   ensures r >= 0.0
 //@ iface ReadStat.GetPreviousQPS(event) r
 //@   pure
+//@   ensures r >= 0.0
 //@ iface ReadStat.MinRT() r
 //@   pure
 //@ iface ReadStat.AvgRT() r
